@@ -194,29 +194,36 @@ def failing_edge_obligation(ctx, rule, fn, guard, discharge, effect_name, accept
         one.matches_call = (lambda f, bi, t, _s=s: bi == _s)
         witness = None
         extra_calls = set()
-        for _round in range(6):
+        extra_atoms = set()
+        for _round in range(8):
             def mon(bi, b, env, facts, ms):
-                # 0 = guard not (re)evaluated/failed yet, 1 = failed and pending, 2 = discharged,
+                # st: 0 = guard not (re)evaluated/failed yet, 1 = failed and pending, 2 = discharged,
                 # 3 = failed, then the guard call was re-entered (loop) without discharge: sticky
+                # rdef: block that last defined the return slot (keeps equally-unknown return values of different origin apart)
+                st, rdef = ms
+                if any(dst['l'] == 0 for dst, rv in b['s']) or (b['t']['k'] == 'call' and b['t']['dest']['l'] == 0):
+                    rdef = bi
                 if bi == s:
-                    ms = 3 if ms in (1, 3) else 0
-                elif ms == 0 and one.holds(fn, facts):
-                    ms = 1
-                if ms == 1 and discharge(bi, b):
-                    ms = 2
-                if b['t']['k'] == 'ret' and ms in (1, 3):
+                    st = 3 if st in (1, 3) else 0
+                elif st == 0 and one.holds(fn, facts):
+                    st = 1
+                if st == 1 and discharge(bi, b):
+                    st = 2
+                if b['t']['k'] == 'ret' and st in (1, 3):
                     cls = classify_ret(fn, env.get(0))
                     if cls in accept_ret or (accept_ret_pred and accept_ret_pred(cls)):
-                        return ms, []
-                    return ms, [('bad', cls)]
-                return ms, []
-            mon.init = 0
-            eng = _engine(fn, [one], extra=lambda bi, t: bi in extra_calls)
+                        return (st, rdef), []
+                    return (st, rdef), [('bad', cls, rdef)]
+                return (st, rdef), []
+            mon.init = (0, -1)
+            eng = _engine(fn, [one], extra=lambda bi, t: bi in extra_calls, extra_atoms=extra_atoms)
             hits = eng.explore(mon, forget=True)
             ctx.states += eng.states
             witness = None
             refine = False
-            for (lab, cls), bi, facts, env, key in hits:
+            from lib import call_sites_in
+            ec0, ea0 = set(extra_calls), set(extra_atoms)
+            for (lab, cls, _rd), bi, facts, env, key in hits:
                 path = eng.path_of(key)
                 ok, atom = eng.feasible(path)
                 if ok:
@@ -225,13 +232,22 @@ def failing_edge_obligation(ctx, rule, fn, guard, discharge, effect_name, accept
                     if fenv is not None:
                         cls2 = classify_ret(fn, fenv.get(0))
                         if cls2 in accept_ret or (accept_ret_pred and accept_ret_pred(cls2)):
+                            # the sliced exploration and the replay disagree: track what the return value depends on and explore again,
+                            # so that another path merged into the same sliced state is not decided by this representative
+                            new = [x for x in call_sites_in(fenv.get(0)) if x not in extra_calls]
+                            if new:
+                                extra_calls.update(new); refine = True
                             continue
                     witness = (path, cls)
                     break
-                from lib import call_sites_in
-                new = [x for x in call_sites_in(atom) if x not in extra_calls]
+                new = [x for x in call_sites_in(atom) if x not in ec0]
                 if new:
                     extra_calls.update(new); refine = True
+                elif atom is not None and atom not in ea0:
+                    extra_atoms.add(atom); refine = True
+                else:
+                    witness = (path, str(cls) + ' (witness infeasible under full tracking, nothing left to refine: fail closed)')
+                    break
             if witness or not refine:
                 break
         t = fn.B[s]['t']
@@ -245,29 +261,36 @@ def failing_edge_obligation(ctx, rule, fn, guard, discharge, effect_name, accept
 def returns_only_if(ctx, rule, fn, ret_class, guards_any, name=None, info=False, extra_track=None):
     """every `return <ret_class>` state must have one of guards_any established"""
     extra_calls = set()
+    extra_atoms = set()
     bad = None
     nret = 0
     for _round in range(8):
         def mon(bi, b, env, facts, ms):
+            # monitor state: (most recent guard site or -1, block that last defined the return slot).  The defining block keeps
+            # returns of different origin apart: two paths whose symbolic return value is equally unknown are still distinct witnesses.
+            gms, rdef = ms
             est = []
             for g in guards_any:
                 est.extend(g.holds(fn, facts))
             if est:
-                ms = max(est)
+                gms = max(est)
+            if any(dst['l'] == 0 for dst, rv in b['s']) or (b['t']['k'] == 'call' and b['t']['dest']['l'] == 0):
+                rdef = bi
             labels = []
             if b['t']['k'] == 'ret':
-                labels = [(env.get(0), ms)]
-            if bi == ms:
-                ms = -1
-            return ms, labels
-        mon.init = -1
-        eng = _engine(fn, guards_any, extra=lambda bi, t: bi in extra_calls or bool(extra_track and extra_track(bi, t)))
+                labels = [(env.get(0), gms, rdef)]
+            if bi == gms:
+                gms = -1
+            return (gms, rdef), labels
+        mon.init = (-1, -1)
+        eng = _engine(fn, guards_any, extra=lambda bi, t: bi in extra_calls or bool(extra_track and extra_track(bi, t)), extra_atoms=extra_atoms)
         hits = eng.explore(mon, forget=True)
         ctx.states += eng.states
         bad = None
         refine = False
         nret = 0
-        for (v, gms), bi, facts, env, key in hits:
+        ec0, ea0 = set(extra_calls), set(extra_atoms)
+        for (v, gms, _rdef), bi, facts, env, key in hits:
             cls = classify_ret(fn, v)
             if not (cls == ret_class or (callable(ret_class) and ret_class(cls))):
                 continue
@@ -279,17 +302,25 @@ def returns_only_if(ctx, rule, fn, ret_class, guards_any, name=None, info=False,
             if ok:
                 fenv, ffacts = eng.final_env(path)
                 if ffacts is not None:
-                    if any(g.holds(fn, ffacts) for g in guards_any):
-                        continue
                     c2 = classify_ret(fn, fenv.get(0))
-                    if not (c2 == ret_class or (callable(ret_class) and ret_class(c2))):
+                    if any(g.holds(fn, ffacts) for g in guards_any) or not (c2 == ret_class or (callable(ret_class) and ret_class(c2))):
+                        # sliced exploration and replay disagree: track what the return value depends on and explore again
+                        from lib import call_sites_in as _csi
+                        new = [x for x in _csi(fenv.get(0)) if x not in extra_calls]
+                        if new:
+                            extra_calls.update(new); refine = True
                         continue
                 bad = path
                 break
             from lib import call_sites_in
-            new = [x for x in call_sites_in(atom) if x not in extra_calls]
+            new = [x for x in call_sites_in(atom) if x not in ec0]
             if new:
                 extra_calls.update(new); refine = True
+            elif atom is not None and atom not in ea0:
+                extra_atoms.add(atom); refine = True
+            else:
+                bad = path   # infeasible under full tracking but nothing left to refine on: fail closed
+                break
         if bad or not refine:
             break
     rc = ret_class if isinstance(ret_class, str) else (name or 'ret')
